@@ -385,7 +385,21 @@ impl Family for TlvViewFamily {
             }
             frontier = next;
         }
-        ops.chunks(256).map(|c| c.to_vec()).collect()
+        let mut cases: Vec<Vec<String>> = ops.chunks(256).map(|c| c.to_vec()).collect();
+        // (c) pair counts beyond one byte (256 +- 1, and 300 in thorough): a well-formed message, the same with its
+        // last offset one past the payload, and with one byte cut off (thresholds that depend on a large N)
+        let mut rng = Rng::new(0xC12_B16);
+        for n in if thorough { vec![255usize, 256, 257, 300] } else { vec![255usize, 256, 257] } {
+            let d = gen_valid(&mut rng, n);
+            let mut over = d.clone();
+            let payload = (d.len() - 8 * n) as u32;
+            put32(&mut over, n - 1, payload + 1);
+            let cut = d[..d.len() - 1].to_vec();
+            // few lookups: the observation is quadratic in N already
+            let lk = |x: &[u8]| format!("view {} {},{},0,4294967295", to_hex(x), rd32(x, n), rd32(x, 2 * n - 1));
+            cases.push(vec![lk(&d), lk(&over), lk(&cut)]);
+        }
+        cases
     }
 
     fn gen_case(&self, rng: &mut Rng, _idx: u64, _thorough: bool) -> Vec<String> {
